@@ -424,3 +424,20 @@ def _connector_endpoints(repo, ob, failure):
                 if any(not abs(u - v) <= 0.002 for u, v in zip(got, want)):
                     return {"input": doc, "observed": "x1,y1,x2,y2 = %r" % (got,), "expected": "%r" % (want,)}
     return None
+
+
+@generator("C18.group.")
+def _reuse_group_translate(repo, ob, failure):
+    """a reused group is placed by a translation applied AFTER any transform already on the instance"""
+    import re as _re
+    for x, y, t in ((3, 5, "rotate(45)"), (-2, 7, "scale(2)"), (4, 0, "rotate(10)")):
+        doc = ('<svg><defs><g id="q"><rect wh="10 5"/></g></defs>'
+               '<reuse id="i2" href="#q" x="%d" y="%d" transform="%s"/></svg>' % (x, y, t))
+        r = run_svgdx(repo, doc)
+        if r["rc"] != 0:
+            continue
+        m = _re.search(r'<g id="i2"[^>]*transform="([^"]*)"', r["out"])
+        want = "%s translate(%d, %d)" % (t, x, y)
+        if m and m.group(1) != want:
+            return {"input": doc, "observed": 'transform="%s"' % m.group(1), "expected": 'transform="%s"' % want}
+    return None
